@@ -198,12 +198,17 @@ func normalizeRef(opts *FlattenOpts) error {
 			continue
 		}
 
+		// strip the base path only: the $ref may point deeper than a definition (e.g. #/definitions/A/properties/x)
+		local := definitionsPath + strings.TrimPrefix(w.String(), opts.BasePath+definitionsPath)
+		if local == w.String() {
+			// nothing to strip (e.g. no base path specified)
+			continue
+		}
+
 		altered = true
 		debugLog("stripping absolute path for: %s", w.String())
 
-		// strip the base path from definition
-		if err := replace.UpdateRef(opts.Swagger(), k,
-			spec.MustCreateRef(path.Join(definitionsPath, path.Base(w.String())))); err != nil {
+		if err := replace.UpdateRef(opts.Swagger(), k, spec.MustCreateRef(local)); err != nil {
 			return err
 		}
 	}
